@@ -2625,6 +2625,7 @@ def namespace_to_flowir(
 
     # VV: The (stage, name) pairs that are already in use
     taken_names: typing.Set[typing.Tuple[int, str]] = set()
+    naming_errors: typing.List[experiment.model.errors.DSLInvalidFieldError] = []
 
     for _, comp in components.items():
         assert isinstance(comp.scope.template, Component)
@@ -2641,17 +2642,33 @@ def namespace_to_flowir(
                 name = "-".join((comp.step_name, number_to_roman_like_numeral(prior)))
 
             match = pattern_name.fullmatch(name)
+            if match is None:
+                # VV: e.g. the step name ends with a digit, FlowIR reserves that for replicas
+                comp_id = None
+                naming_errors.append(experiment.model.errors.DSLInvalidFieldError(
+                    location=comp.scope.dsl_location(),
+                    underlying_error=ValueError(f"The name {name} of the step that instantiates a Component does "
+                                                f"not match the pattern {SignatureNamePattern}")
+                ))
+                break
+
             match_groups = match.groupdict()
             comp_id = (int(match_groups.get("stage") or 0), match_groups["name"])
 
             if comp_id not in taken_names:
                 break
 
+        if comp_id is None:
+            continue
+
         taken_names.add(comp_id)
         uid_to_name[tuple(comp.scope.location)] = comp_id
 
         comp.flowir['name'] = uid_to_name[tuple(comp.scope.location)][1]
         comp.flowir['stage'] = uid_to_name[tuple(comp.scope.location)][0]
+
+    if naming_errors:
+        raise experiment.model.errors.DSLInvalidError.from_errors(naming_errors)
 
     complete = experiment.model.frontends.flowir.FlowIRConcrete(
         flowir_0={},
